@@ -220,6 +220,11 @@ func (mbox *Mailbox) flagsLocked() []imap.Flag {
 func (mbox *Mailbox) Expunge(w *imapserver.ExpungeWriter, uids *imap.UIDSet) error {
 	expunged := make(map[*message]struct{})
 	mbox.mutex.Lock()
+	if uids != nil {
+		// "*" is the UID of the last message
+		static := mbox.staticUIDSetLocked(*uids)
+		uids = &static
+	}
 	for _, msg := range mbox.l {
 		if uids != nil && !uids.Contains(msg.uid) {
 			continue
@@ -479,21 +484,25 @@ func (mbox *MailboxView) staticNumSet(numSet imap.NumSet) imap.NumSet {
 		}
 		return static
 	case imap.UIDSet:
-		// "*" is the UID of the last message in the mailbox, which is lower
-		// than uidNext-1 once the last message has been expunged
-		max := uint32(mbox.uidNext) - 1
-		if len(mbox.l) > 0 {
-			max = uint32(mbox.l[len(mbox.l)-1].uid)
-		}
-		var static imap.UIDSet
-		for _, r := range numSet {
-			staticNumRange((*uint32)(&r.Start), (*uint32)(&r.Stop), max)
-			static.AddRange(r.Start, r.Stop)
-		}
-		return static
+		return mbox.staticUIDSetLocked(numSet)
 	}
 
 	return numSet
+}
+
+func (mbox *Mailbox) staticUIDSetLocked(uidSet imap.UIDSet) imap.UIDSet {
+	// "*" is the UID of the last message in the mailbox, which is lower
+	// than uidNext-1 once the last message has been expunged
+	max := uint32(mbox.uidNext) - 1
+	if len(mbox.l) > 0 {
+		max = uint32(mbox.l[len(mbox.l)-1].uid)
+	}
+	var static imap.UIDSet
+	for _, r := range uidSet {
+		staticNumRange((*uint32)(&r.Start), (*uint32)(&r.Stop), max)
+		static.AddRange(r.Start, r.Stop)
+	}
+	return static
 }
 
 func staticNumRange(start, stop *uint32, max uint32) {
